@@ -59,10 +59,16 @@ impl<I: Interner> SpecializationPriorities<I> {
     }
 
     /// Store the priority of an impl (used during construction).
-    /// Panics if we have already stored the priority for this impl.
-    fn insert(&mut self, impl_id: ImplId<I>, p: SpecializationPriority) {
-        let old_value = self.map.insert(impl_id, p);
-        assert!(old_value.is_none());
+    /// If a priority is already stored for this impl, the higher one is kept.
+    /// Returns `false` if the stored priority did not change.
+    fn insert(&mut self, impl_id: ImplId<I>, p: SpecializationPriority) -> bool {
+        match self.map.get(&impl_id) {
+            Some(old_value) if *old_value >= p => false,
+            _ => {
+                self.map.insert(impl_id, p);
+                true
+            }
+        }
     }
 }
 
@@ -138,7 +144,12 @@ where
             let impl_id = forest
                 .node_weight(idx)
                 .expect("index should be a valid index into graph");
-            map.insert(*impl_id, SpecializationPriority(p));
+            // An impl can be reachable along several paths (`A -> B -> C` and
+            // `A -> C`): keep the longest one, so that a more special impl
+            // always ends up with a higher priority than a less special one.
+            if !map.insert(*impl_id, SpecializationPriority(p)) {
+                return;
+            }
         }
 
         // TypeVisitable all children of this node, setting their priority to this + 1
